@@ -91,6 +91,22 @@ impl<I: Object> Stream<I> {
         }
     }
 
+    /// The decoded data, read from the file without the stream cache. The cache is keyed by object number, which
+    /// does not identify the cross-reference stream of a section: while the table is still being put together, the
+    /// stream of an older section may carry the number that a newer section has given to its own stream.
+    pub (crate) fn data_uncached(&self, resolve: &impl Resolve) -> Result<Arc<[u8]>> {
+        match self.inner_data {
+            StreamData::Generated(_) => self.data(resolve),
+            StreamData::Original(ref file_range, id) => {
+                let mut data = resolve.stream_data(id, file_range.clone())?;
+                for filter in &self.info.filters {
+                    data = t!(decode(&data, filter), filter).into();
+                }
+                Ok(data)
+            }
+        }
+    }
+
     pub fn len(&self) -> usize {
         match self.inner_data {
             StreamData::Generated(ref data) => data.len(),
